@@ -2,20 +2,23 @@ import MosnVerif.Gen.WeightedCluster
 /-!
 Model of `RouteRuleImplBase.ClusterName` (pkg/router/base_rule.go): the cumulative-weight scan over the
 weighted-cluster map with the drawn value.  The map iteration order is a parameter (`List Entry`): every
-theorem quantifies over every order.  The loop body (subtract, compare, return) is *regenerated* from the Go source
-(`Gen.WeightedCluster.step`).
+theorem quantifies over every order.  The loop body (subtract, compare, return — and any `continue` / `break`) is
+*regenerated* from the Go source (`Gen.WeightedCluster.stepCtl`).
 -/
 namespace MosnVerif.Model.WeightedCluster
 
 abbrev Entry := String × Nat
 
-/-- the scan exactly as the Go code performs it: subtract, then test with the regenerated comparison. -/
+/-- the scan exactly as the Go code performs it: one regenerated loop body per visited entry; the body ends in a
+`return` (the selected cluster), in the next iteration (end of the body or `continue`), or in a `break`, which ends the
+scan without a result (`ClusterName` then returns the route's default cluster). -/
 def scan : List Entry → Int → Option String
   | [], _ => none
   | (n, w) :: r, v =>
-    match Gen.WeightedCluster.step v (w : Int) n with
-    | (_, some name) => some name
-    | (v', none) => scan r v'
+    match Gen.WeightedCluster.stepCtl v (w : Int) n with
+    | (_, .ret name) => some name
+    | (_, .stop) => none
+    | (v', .next) => scan r v'
 
 /-- `ClusterName` for a draw `v` (the value of `rand.Intn(total)`); `none` = falls through to the default cluster. -/
 def select (l : List Entry) (v : Nat) : Option String := scan l (v : Int)
